@@ -10,7 +10,7 @@ Inductive rsn := RU | RC.
 Inductive hold := HNone | HA (a : nat) | HB (b : nat).
 
 Record act := { apc : pc; ab : nat; aw : nat; actx : ctx; afor : nat; aign : bool; acanc : bool }.
-Record blk := { tok : bool; parked : bool; reason : option rsn; unp : bool; rel : bool; owner : nat }.
+Record blk := { tok : bool; parked : bool; reason : option rsn; unp : bool; rel : bool; owner : nat; ag : nat }.
 Record st := { cnt : nat; q : list nat; nextb : nat; A : nat -> act; Bk : nat -> blk;
                holder : hold; ent : list nat }.
 
@@ -21,7 +21,7 @@ Variable isco : nat -> bool.      (* which actors are coroutines (cancellable) *
 
 Definition set_pc (x : act) p := {| apc := p; ab := ab x; aw := aw x; actx := actx x; afor := afor x; aign := aign x; acanc := acanc x |}.
 Definition ret_pc (c : ctx) := match c with RPark => P | RDone => Idle | RExit => Exit end.
-Definition fresh (o : nat) := {| tok := false; parked := false; reason := None; unp := false; rel := false; owner := o |}.
+Definition fresh (o : nat) := {| tok := false; parked := false; reason := None; unp := false; rel := false; owner := o; ag := 0 |}.
 
 Inductive action := Start (a : nat) (ign : bool) | Step (a : nat) | Cancel (a : nat).
 
@@ -44,7 +44,7 @@ Definition step (s : st) (ac : action) : option st :=
         let b := Bk s (ab x) in
         match apc x, reason b with
         | W, None => Some (mk (cnt s) (q s) (nextb s) (upd (A s) a x')
-                       (upd (Bk s) (ab x) {| tok := tok b; parked := parked b; reason := Some RC; unp := unp b; rel := rel b; owner := owner b |})
+                       (upd (Bk s) (ab x) {| tok := tok b; parked := parked b; reason := Some RC; unp := unp b; rel := rel b; owner := owner b; ag := ag b |})
                        (holder s) (ent s))
         | _, _ => Some (mk (cnt s) (q s) (nextb s) (upd (A s) a x') (Bk s) (holder s) (ent s))
         end
@@ -74,17 +74,17 @@ Definition step (s : st) (ac : action) : option st :=
                      (Bk s) (holder s) (ent s))
               end
       | H2 => Some (mk (cnt s) (q s) (nextb s) (upd (A s) a (set_pc x H3))
-                     (upd (Bk s) (aw x) {| tok := tok w; parked := parked w; reason := reason w; unp := true; rel := rel w; owner := owner w |})
+                     (upd (Bk s) (aw x) {| tok := tok w; parked := parked w; reason := reason w; unp := true; rel := rel w; owner := owner w; ag := a |})
                      (HB (aw x)) (ent s))
       | H3 => Some (mk (cnt s) (q s) (nextb s) (upd (A s) a (set_pc x H4))
                      (upd (Bk s) (aw x) {| tok := true; parked := parked w;
                                            reason := (if parked w then match reason w with None => Some RU | r => r end else reason w);
-                                           unp := unp w; rel := rel w; owner := owner w |})
+                                           unp := unp w; rel := rel w; owner := owner w; ag := ag w |})
                      (holder s) (ent s))
       | H4 => if rel w
               then Some (mk (cnt s) (q s) (nextb s)
                      (upd (A s) a {| apc := U0; ab := ab x; aw := aw x; actx := actx x; afor := owner w; aign := aign x; acanc := acanc x |})
-                     (upd (Bk s) (aw x) {| tok := tok w; parked := parked w; reason := reason w; unp := unp w; rel := false; owner := owner w |})
+                     (upd (Bk s) (aw x) {| tok := tok w; parked := parked w; reason := reason w; unp := unp w; rel := false; owner := owner w; ag := ag w |})
                      (HA a) (ent s))
               else Some (mk (cnt s) (q s) (nextb s) (upd (A s) a (set_pc x (ret_pc (actx x)))) (Bk s) (holder s) (ent s))
       | U0 => if Nat.ltb 1 (cnt s)
@@ -92,22 +92,22 @@ Definition step (s : st) (ac : action) : option st :=
               else Some (mk (cnt s - 1) (q s) (nextb s) (upd (A s) a (set_pc x (ret_pc (actx x)))) (Bk s) HNone (remove Nat.eq_dec (afor x) (ent s)))
       | P => if isco a && acanc x && negb (aign x)
              then Some (mk (cnt s) (q s) (nextb s) (upd (A s) a (set_pc x C1))
-                     (upd (Bk s) (ab x) {| tok := false; parked := parked b; reason := reason b; unp := unp b; rel := rel b; owner := owner b |})
+                     (upd (Bk s) (ab x) {| tok := false; parked := parked b; reason := reason b; unp := unp b; rel := rel b; owner := owner b; ag := ag b |})
                      (holder s) (ent s))
              else if tok b
              then Some (mk (cnt s) (q s) (nextb s) (upd (A s) a (set_pc x CS))
-                     (upd (Bk s) (ab x) {| tok := false; parked := parked b; reason := reason b; unp := unp b; rel := rel b; owner := owner b |})
+                     (upd (Bk s) (ab x) {| tok := false; parked := parked b; reason := reason b; unp := unp b; rel := rel b; owner := owner b; ag := ag b |})
                      (HA a) (ent s))
              else Some (mk (cnt s) (q s) (nextb s) (upd (A s) a (set_pc x W))
-                     (upd (Bk s) (ab x) {| tok := tok b; parked := true; reason := None; unp := unp b; rel := rel b; owner := owner b |})
+                     (upd (Bk s) (ab x) {| tok := tok b; parked := true; reason := None; unp := unp b; rel := rel b; owner := owner b; ag := ag b |})
                      (holder s) (ent s))
       | W => match reason b with
              | None => None
              | Some RU => Some (mk (cnt s) (q s) (nextb s) (upd (A s) a (set_pc x CS))
-                     (upd (Bk s) (ab x) {| tok := false; parked := false; reason := None; unp := unp b; rel := rel b; owner := owner b |})
+                     (upd (Bk s) (ab x) {| tok := false; parked := false; reason := None; unp := unp b; rel := rel b; owner := owner b; ag := ag b |})
                      (HA a) (ent s))
              | Some RC => Some (mk (cnt s) (q s) (nextb s) (upd (A s) a (set_pc x C1))
-                     (upd (Bk s) (ab x) {| tok := false; parked := false; reason := None; unp := unp b; rel := rel b; owner := owner b |})
+                     (upd (Bk s) (ab x) {| tok := false; parked := false; reason := None; unp := unp b; rel := rel b; owner := owner b; ag := ag b |})
                      (holder s) (ent s))
              end
       | C1 => if unp b
@@ -120,7 +120,7 @@ Definition step (s : st) (ac : action) : option st :=
                     then Some (mk (cnt s) (q s) (nextb s) (upd (A s) a (set_pc x P)) (Bk s) (holder s) (ent s))
                     else Some (mk (cnt s) (q s) (nextb s) (upd (A s) a (set_pc x C2)) (Bk s) (holder s) (ent s)))
       | C2 => Some (mk (cnt s) (q s) (nextb s) (upd (A s) a (set_pc x C3))
-                     (upd (Bk s) (ab x) {| tok := tok b; parked := parked b; reason := reason b; unp := unp b; rel := true; owner := owner b |})
+                     (upd (Bk s) (ab x) {| tok := tok b; parked := parked b; reason := reason b; unp := unp b; rel := true; owner := owner b; ag := ag b |})
                      (holder s) (ent s))
       | C3 => if unp b
               then Some (mk (cnt s) (q s) (nextb s) (upd (A s) a (set_pc x C4)) (Bk s) (holder s) (ent s))
@@ -128,7 +128,7 @@ Definition step (s : st) (ac : action) : option st :=
       | C4 => if rel b
               then Some (mk (cnt s) (q s) (nextb s)
                      (upd (A s) a {| apc := U0; ab := ab x; aw := aw x; actx := RExit; afor := a; aign := aign x; acanc := acanc x |})
-                     (upd (Bk s) (ab x) {| tok := tok b; parked := parked b; reason := reason b; unp := unp b; rel := false; owner := owner b |})
+                     (upd (Bk s) (ab x) {| tok := tok b; parked := parked b; reason := reason b; unp := unp b; rel := false; owner := owner b; ag := ag b |})
                      (HA a) (ent s))
               else Some (mk (cnt s) (q s) (nextb s) (upd (A s) a (set_pc x Exit)) (Bk s) (holder s) (ent s))
       | CS => Some (mk (cnt s) (q s) (nextb s)
